@@ -65,7 +65,7 @@ CHECKS["C03"] = ("exploration",
  "DESIGN.md §4 C03")
 CHECKS["C12"] = ("exploration",
  "bounded-exhaustive enumeration of strings over a byte alphabet, number classes and container shapes x every output mode, with read-back and cross-mode agreement",
- "All strings of length <= 2 over a 48-piece byte alphabet (every control/quote/backslash/DEL class, every UTF-8 lead and continuation class, surrogate encodings, U+2028/9, U+FFFD, boundary code points) of length 3 over all of them (thorough: also length 4 over 18 of them), each as value, object key and nested; ~50 numbers covering float64 bit-pattern classes and format thresholds, NaN/inf, non-canonical json.Number literals and big integers; containers of every depth 0..100, 129, 200 (thorough: every depth to 260, 500, 1000), width to 1000 (9000) and sizes on either side of the encoder's 8 KiB flush. Every value is rendered by Marshal, tojson, tostring, @json, @text and by the command's own encoder (hook VerifEncode) in every option combination (compact, indent 0..9, tab; plain and coloured); each output must be valid UTF-8, well-formed JSON holding one value, read back equal (modulo NaN->null, infinity saturation, U+FFFD per invalid byte), agree with Marshal modulo insignificant white space and SGR sequences, and be indented by exactly depth x unit on every line; tojson|fromjson is the identity. Encoder and Marshal reuse histories, the real command line with --arg, and a --yaml-output/--yaml-input round trip for every valid string.",
+ "All strings of length <= 2 over a 48-piece byte alphabet (every control/quote/backslash/DEL class, every UTF-8 lead and continuation class, surrogate encodings, U+2028/9, U+FFFD, boundary code points) of length 3 over all of them (thorough: also length 4 over 18 of them), each as value, object key and nested; ~50 numbers covering float64 bit-pattern classes and format thresholds, NaN/inf, non-canonical json.Number literals and big integers; containers of every depth 0..100, 129, 200 (thorough: every depth to 260, 500, 1000), width to 1000 (9000) and sizes on either side of the encoder's 8 KiB flush. Every value is rendered by Marshal, tojson, tostring, @json, @text and by the command's own encoder (hook VerifEncode) in every option combination (compact, indent 0..9, tab; plain and coloured); each output must be valid UTF-8, well-formed JSON holding one value, read back equal (modulo NaN->null, infinity saturation, U+FFFD per invalid byte), agree with Marshal modulo insignificant white space and SGR sequences, and be indented by exactly depth x unit on every line; tojson|fromjson is the identity. Encoder and Marshal reuse histories, the real command line with --arg, and a --yaml-output/--yaml-input round trip for every valid string; YAML number spellings (sign x 9 integer forms x 5 fractions x 6 exponents in 4 document shapes x 5 commands) must come out as well-formed JSON, and numbers of every kind (big integers, doubles, json.Number) must survive --yaml-output | --yaml-input.",
  "Trusted: encoding/json as the reader. A double's text is compared as a double.",
  "DESIGN.md §4 C12")
 CHECKS["C13"] = ("exploration",
